@@ -814,7 +814,15 @@ func (r *sessRun) quiesce() {
 	start := time.Now()
 	// a call is expected to complete if its reply was sent, the connection is down or the reader failed;
 	// a Close() is expected to return unless a call is legitimately still waiting for its reply
-	expectDone := func(c string) bool { return r.replied[c] || r.connDown || r.anyBad }
+	// (once the session has reached a closed state every call is expected to be complete: the observer goroutine
+	// that notes a completion may lag behind the Close() that caused it, so this is waited for, not sampled)
+	expectDone := func(c string) bool {
+		if r.replied[c] || r.connDown || r.anyBad {
+			return true
+		}
+		st := erpc.VerifStatus(r.sess)
+		return st == 3 || st == 5
+	}
 	settled := func() bool {
 		legitPending := false
 		for c, co := range r.calls {
@@ -864,7 +872,16 @@ func (r *sessRun) quiesce() {
 		st := erpc.VerifStatus(r.sess)
 		return st == 1 || st == 3 || st == 5
 	})
-	time.Sleep(2 * time.Millisecond)
+	// ... until the trace has stopped growing (a fixed short sleep is not enough on a loaded machine)
+	last, stable := r.rec.Count(), 0
+	for i := 0; i < 300 && stable < 4; i++ {
+		time.Sleep(500 * time.Microsecond)
+		if now := r.rec.Count(); now == last {
+			stable++
+		} else {
+			last, stable = now, 0
+		}
+	}
 	pendingCalls := []string{}
 	for c, co := range r.calls {
 		select {
